@@ -214,3 +214,50 @@ Definition read_back (m : BeatmapV) : BeatmapV :=
 (* the special style is carried in mania only: a mode edit may change whether it is *)
 Definition without_special (m : BeatmapV) : BeatmapV :=
   upd_general (fun g => set_g_special_style g false) m.
+
+(* ---------- hit-object lines (circles, spinners, holds) ---------- *)
+
+Definition f32_eqb (x y : F32) : bool := sf_eqb (B2SF x) (B2SF y).
+(* a coordinate: an integer within +-MAX_COORDINATE_VALUE (the decoder truncates) *)
+Definition coord_ok (x : F32) : bool :=
+  let n := f32_as_i32 x in (Z.abs n <=? max_coordinate_value) && f32_eqb x (S.of_Z n).
+(* a sample file name: the last `:`-separated piece of the last `,`-separated field *)
+Definition fname_ok (f : str) : bool :=
+  negb (memb comma f) && negb (memb colon f) && negb (has_ss f) && negb (memb ch_lf f) && negb (last_ws f).
+Definition sample_ok (s : HitSampleInfo) : bool :=
+  i32_ok (hs_custom s) && i32_ok (hs_volume s) && enum4_ok (hs_bank s) &&
+  match hs_name s with NFile f => fname_ok f | NDefault _ => true end.
+
+Definition object_ok (h : HitObject) : bool :=
+  in_lim64 (h_start h) && forallb sample_ok (h_samples h) &&
+  match h_kind h with
+  | KCircle c => coord_ok (px (ci_pos c)) && coord_ok (py (ci_pos c)) &&
+                 (0 <=? ci_combo_offset c) && (ci_combo_offset c <=? 7)
+  | KSpinner s => coord_ok (px (sp_pos s)) && coord_ok (py (sp_pos s)) &&
+                  in_lim64 (D.add (h_start h) (sp_duration s))
+  | KHold hd => coord_ok (hd_pos_x hd) && in_lim64 (D.add (h_start h) (hd_duration hd))
+  | KSlider _ => false
+  end.
+
+Definition kind_tag (k : HitObjectKind) : Z :=
+  match k with KCircle _ => 0 | KSlider _ => 1 | KSpinner _ => 2 | KHold _ => 3 end.
+(* the position a hit-object line carries (a hold has only x) *)
+Definition line_pos (k : HitObjectKind) : option Pos :=
+  match k with
+  | KCircle c => Some (ci_pos c)
+  | KSlider s => Some (sl_pos s)
+  | KSpinner s => None           (* the decoder puts every spinner at the centre *)
+  | KHold hd => Some (mkPos (hd_pos_x hd) (hd_pos_x hd))
+  end.
+
+(* ---------- timing-point lines ---------- *)
+
+(* the shape of every line of the [TimingPoints] section *)
+Definition tp_line (time beat : F64) (p : Props) (is_timing : bool) : line :=
+  [TF64 time; t_comma; TF64 beat; t_comma] ++ props_toks p is_timing.
+
+(* the beat-length field: any finite value within the limits (the decoder also lets NaN
+   through on inherited lines) *)
+Definition tp_line_ok (time beat : F64) (p : Props) (is_timing : bool) : bool :=
+  in_lim64 time && in_lim64 beat && (0 <? pr_sig p) && i32_ok (pr_sig p) && i32_ok (pr_bank p) &&
+  i32_ok (pr_custom p) && i32_ok (pr_vol p) && raw_i32_ok (pr_flags p).
